@@ -14,9 +14,10 @@ for f in sorted(glob.glob('py/props/c*.py')):
     try:
         m = importlib.import_module('props.' + os.path.basename(f)[:-3])
         gen.register(getattr(m, 'GEN_JOBS', {}))
+        pid = getattr(m, 'ID', os.path.basename(f)[:-3].upper())
         for hook in getattr(m, 'PREBUILD', []):
             try:
-                hook(None)
+                hook(V.Ctx(pid, 'quick', 0))
             except Exception as e:
                 print('prebuild', hook.__name__, 'FAILED', e)
     except Exception as e:
@@ -30,7 +31,7 @@ V.write_coqproject()
 PY
 # 2. full .vo build (never -vos)
 cd coq
-timeout 3000 make -j16 2>&1 | tail -5 || true
+timeout 3000 make -k -j16 2>&1 | tail -5 || true
 cd ..
 # 3. numba warm-up (compiles and caches the kernels)
 /venv/bin/python -c "
